@@ -105,6 +105,35 @@ def run(ctx, spec):
                     ctx.sig((child, parent))
             if ctx.too_many():
                 break
+        # wide masks (12-70 positions) with long stretches of absent positions: byte/word boundaries, long gaps inside
+        # and outside the parent, runs spanning them
+        rng = ctx.rng("wide")
+        nw = 0
+        for _ in range(3000 if ctx.tier == "quick" else 40000):
+            bits = rng.choice([12, 16, 17, 24, 31, 32, 33, 40, 63, 64, 65, 70])
+            parent = 0
+            pos = 0
+            while pos < bits:
+                ln = rng.choice([1, 1, 2, 3, 5, 8, 9, 16])
+                if rng.random() < 0.5:
+                    parent |= ((1 << ln) - 1) << pos
+                pos += ln
+            parent &= (1 << bits) - 1
+            child = 0
+            pos = 0
+            while pos < bits:
+                ln = rng.choice([1, 1, 2, 3, 8, 11])
+                if rng.random() < 0.5:
+                    child |= ((1 << ln) - 1) << pos
+                pos += ln
+            child &= parent if rng.random() < 0.9 else (1 << bits) - 1
+            if child == 0:
+                continue
+            for edges in (True, False):
+                check_dist(ctx, SUB.subseq_segment_dist, child, parent, edges)
+                cnt += 1
+                nw += 1
+        ctx.count("mon.dist_wide", nw)
         ctx.count("evaluations", cnt)
         ctx.count("mon.dist", cnt)
         ctx.sample({"kind": "dist", "child": 0b1001, "parent": 0b11111, "edges": False})
